@@ -22,8 +22,8 @@ from concurrent.futures import ProcessPoolExecutor, wait, FIRST_COMPLETED
 from . import world as W
 
 VERIF = os.path.dirname(os.path.dirname(os.path.abspath(__file__)))
-REPLAYS = os.path.join(VERIF, 'replays')
-EVIDENCE = os.path.join(VERIF, 'evidence')
+REPLAYS = os.environ.get('VERIF_REPLAY_DIR') or os.path.join(VERIF, 'replays')
+EVIDENCE = os.environ.get('VERIF_EVIDENCE_DIR') or os.path.join(VERIF, 'evidence')     # bin/seedtest points these elsewhere
 KNOWN = os.path.join(VERIF, 'known_findings.jsonl')
 RUN_WATCHDOG_S = 120
 
